@@ -230,7 +230,7 @@ class Program:
                     normalise_conditional_assignments(fi.node)
                     normalise_ifexp(fi.node)
                     normalise_generator_arguments(fi.node)
-            from .inline import Inliner, load_reference, normalise_compiled_patterns, normalise_module_constants, normalise_small_quantifiers
+            from .inline import Inliner, load_reference, normalise_compiled_patterns, normalise_literal_loops, normalise_module_constants, normalise_small_quantifiers
             ref = load_reference()
             if ref is not None:
                 for m in self.modules.values():
@@ -239,6 +239,7 @@ class Program:
                 if fi.parent is None:
                     normalise_small_quantifiers(fi.node)
                     normalise_compiled_patterns(fi.node)
+                    normalise_literal_loops(fi.node)
             if ref is not None:
                 inl = Inliner(self, ref)
                 inl.run()
